@@ -36,6 +36,7 @@ type Case struct {
 	Entry      string        `json:"entry"`
 	Mode       string        `json:"mode"` // "ref" | "failat" | "cancel" | "deadline" | "failnth" | "refuse" | "cancelmid" | "procfail"
 	K          int           `json:"k,omitempty"`
+	ErrKind    string        `json:"err_kind,omitempty"`    // identity of the writer's error (fw.ErrKinds), failat only
 	InjectFile string        `json:"inject_file,omitempty"` // inject a failing expression into this file
 	InjectEnd  bool          `json:"inject_end,omitempty"`
 }
@@ -45,6 +46,10 @@ const injected = `<p>{{ who | boom }}</p>`
 func program(c Case) (cat.Program, error) {
 	if c.Gen != nil {
 		return c.Gen.Program("generated"), nil
+	}
+	if c.Prog == "plain-text" {
+		// a template without any markup, mustache or special character
+		return cat.Program{Name: "plain-text", Files: map[string]string{"page.vuego": "just plain words\nsecond line of plain words"}, Feat: []string{"plain"}}, nil
 	}
 	if c.Prog == "huge-inline" {
 		// an inline template larger than any internal buffer or read limit (about 1.5 MB)
@@ -217,7 +222,7 @@ func check(c Case) error {
 		if k > ref.Len() {
 			k = ref.Len()
 		}
-		w := &fw.FailAt{K: k}
+		w := &fw.FailAt{K: k, Err: fw.ErrOf(c.ErrKind)}
 		err := p.Run(ctx, c.Entry, w)
 		if k < ref.Len() {
 			if err == nil {
@@ -359,6 +364,12 @@ func complete(p cat.Program, out string) error {
 	if p.Name == "generated" {
 		return nil // completeness of generated programs is checked against the reference bytes
 	}
+	if p.Name == "plain-text" {
+		if !strings.Contains(out, "second line of plain words") {
+			return fmt.Errorf("%s: render returned nil but the text is incomplete: %q", p.Name, out)
+		}
+		return nil
+	}
 	var tree []*hx.N
 	var err error
 	if strings.Contains(out, "</html>") {
@@ -384,6 +395,9 @@ func classify(c Case) (bool, []string) {
 	}
 	if p.Fails {
 		cls = append(cls, "failing-program")
+	}
+	if c.ErrKind != "" {
+		cls = append(cls, "writer-error="+c.ErrKind)
 	}
 	if c.InjectFile != "" {
 		cls = append(cls, "injected-failure")
@@ -472,8 +486,29 @@ func TestProp(t *testing.T) {
 		}
 	}
 	for _, e := range cat.Entries {
-		each(Case{Prog: "huge-inline", Entry: e, Mode: "ref"})
-		each(Case{Prog: "huge-inline", Entry: e, Mode: "failat", K: 1_200_000})
+		for _, m := range []string{"ref", "cancel", "deadline", "cancelmid"} {
+			each(Case{Prog: "plain-text", Entry: e, Mode: m})
+		}
+		for k := 0; k <= 43; k += 6 {
+			each(Case{Prog: "plain-text", Entry: e, Mode: "failat", K: k})
+		}
+		// the identity of the destination's error must not matter: catalogue pages failing with
+		// "peer went away" style errors at a few offsets
+		for ki, kind := range fw.ErrKinds[1:] {
+			for _, prog := range []string{"plain", "layout-chain", "include-slot"} {
+				pp, _ := cat.ByName(prog)
+				if pp.Applicable(e) {
+					each(Case{Prog: prog, Entry: e, Mode: "failat", K: []int{0, 1, 17, 60}[ki%4], ErrKind: kind})
+					each(Case{Prog: prog, Entry: e, Mode: "failat", K: 5 + 3*ki, ErrKind: kind})
+				}
+			}
+		}
+		if e == "string" || e == "byte" || e == "reader" {
+			each(Case{Prog: "huge-inline", Entry: e, Mode: "ref"})
+		}
+		if e == "reader" {
+			each(Case{Prog: "huge-inline", Entry: e, Mode: "failat", K: 1_200_000})
+		}
 	}
 	if ok {
 		rec.Exhaustive(fmt.Sprintf("every catalogue program x Template entry point x {reference, cancelled context, expired deadline, context cancelled during evaluation, rejecting node processor (pre/post, first/last element), injected failure in every file at start/end, writer failing at every byte offset 0..len, every single write call failing once, size-limited writers} (%d cases)", i))
@@ -490,6 +525,9 @@ func TestProp(t *testing.T) {
 		if c.Mode == "refuse" {
 			c.K = rapid.IntRange(0, 64).Draw(t, "km")
 		}
+		if c.Mode == "failat" && rapid.Bool().Draw(t, "errkind?") {
+			c.ErrKind = rapid.SampledFrom(fw.ErrKinds).Draw(t, "errkind")
+		}
 		return c
 	}, classify, check)
 
@@ -498,6 +536,9 @@ func TestProp(t *testing.T) {
 	run.Rapid(t, rec, "random", func(t *rapid.T) Case {
 		c := Case{Prog: rapid.SampledFrom(names).Draw(t, "prog"), Entry: rapid.SampledFrom(cat.Entries).Draw(t, "entry"), Mode: rapid.SampledFrom([]string{"ref", "failat", "cancel", "deadline", "failnth", "refuse", "cancelmid", "procfail"}).Draw(t, "mode")}
 		c.K = rapid.IntRange(0, 700).Draw(t, "k")
+		if c.Mode == "failat" && rapid.Bool().Draw(t, "errkind?") {
+			c.ErrKind = rapid.SampledFrom(fw.ErrKinds).Draw(t, "errkind")
+		}
 		return c
 	}, classify, check)
 }
